@@ -64,6 +64,7 @@ def run(ctx, R, tier):
     R.rule("C03-R4", "oneway: the client returns before reading; the server sends nothing (every reply site except the ping answer is under the not-oneway edge)", floor=5)
     R.rule("C03-R5", "server: every reply echoes the sequence number and serializer of the received request", floor=6)
     R.rule("C03-R6", "retry loop: bounded by max_retries+1, handler limited to ConnectionClosedError/TimeoutError, re-raises on the last attempt", floor=3)
+    R.rule("C03-R8", "recovery and exactly-once structure: a released proxy reconnects before the next send; one oneway thread per oneway request", floor=2)
     R.rule("C03-R7", "message type filter raises before the body is read; the client accepts exactly [MSG_RESULT]", floor=2)
 
     f = ctx.fn("Pyro5.client.Proxy._pyroInvoke")
@@ -176,6 +177,31 @@ def run(ctx, R, tier):
                and isinstance(st.value, ast.Constant) and st.value.value is None]
     R.check(bool(closes) and bool(forgets), "C03-R2", "_pyroRelease|close-and-forget", "_pyroRelease closes the connection and stores None", rel_fn.loc(),
             "_pyroRelease no longer closes the connection and resets self._pyroConnection to None")
+
+    # ---------------------------------------------------------------- R8
+    cc = ctx.calls_to(f, "Pyro5.client.Proxy.__pyroCreateConnection")
+
+    def no_conn(atom, pol):
+        if isinstance(atom, ast.Compare) and len(atom.ops) == 1 and unparse(atom.left) == "self._pyroConnection" and isinstance(atom.comparators[0], ast.Constant) \
+                and atom.comparators[0].value is None:
+            return (isinstance(atom.ops[0], ast.Is) and pol is True) or (isinstance(atom.ops[0], ast.IsNot) and pol is False)
+        return False
+
+    def has_conn(atom, pol):
+        return no_conn(atom, not pol) if isinstance(atom, ast.Compare) else False
+    send_nodes0 = [n for c in ctx.calls_to(f, "Pyro5.socketutil.SocketConnection.send") for n in ctx.node_of(f, c)]
+    ccn = [n for c in cc for n in ctx.node_of(f, c)]
+    ok = bool(ccn) and all(cfg.guarded(n, lambda e: edge_has_fact(e, no_conn)) for n in ccn) and \
+        all(cfg.guarded(s_, lambda e: edge_has_fact(e, has_conn), edge_ok=None) or cfg.all_paths_pass([cfg.entry], lambda n: n in ccn or False, targets=[s_],
+                                                                                                     edge_ok=lambda e: not edge_has_fact(e, has_conn)) for s_ in send_nodes0)
+    R.check(ok, "C03-R8", "_pyroInvoke|reconnects-when-released", "a call on a released proxy first creates a new connection (new handshake) before it sends", f.loc(),
+            "after a communication error released the connection, the next call does not reconnect before using self._pyroConnection")
+    hq = ctx.fn("Pyro5.server.Daemon.handleRequest")
+    ow = ctx.calls_to(hq, "Pyro5.server._OnewayCallThread.__init__")
+    starts = [c for c, _ in ctx.cg.calls_of(hq) if isinstance(c.func, ast.Attribute) and c.func.attr == "start"]
+    ok = len(ow) == 1 and len(starts) == 1 and starts[0].func.value is ow[0] and not enclosing_loops(ow[0], hq.node)
+    R.check(ok, "C03-R8", "handleRequest|oneway-started-once", "a oneway request starts exactly one thread for its method, not in a loop", hq.loc(ow[0]) if ow else hq.loc(),
+            "the oneway method can be started more than once (or not at all) for one request")
 
     # ---------------------------------------------------------------- R3
     seq_stores = [(st, t) for st, t, k in stores_in(f.node) if unparse(t) == "self._pyroSeq"]
